@@ -8,6 +8,7 @@ import (
 	"math/big"
 	"math/rand"
 	"sort"
+	"unicode/utf8"
 
 	"github.com/formancehq/ledger/internal/verif/gen"
 )
@@ -54,8 +55,24 @@ func nastyString(r *rand.Rand) string {
 	return s
 }
 
+// canonicalProfile: when set, anyString only returns well-formed UTF-8 and anyDate
+// only UTC dates with whole microseconds (the values HydrateLog itself produces).
+var canonicalProfile bool
+
 // anyString: free text for payload fields (no constraint applies to them).
 func anyString(r *rand.Rand) string {
+	if canonicalProfile {
+		for {
+			s := anyStringRaw(r)
+			if utf8.ValidString(s) {
+				return s
+			}
+		}
+	}
+	return anyStringRaw(r)
+}
+
+func anyStringRaw(r *rand.Rand) string {
 	switch r.Intn(10) {
 	case 0:
 		return ""
@@ -150,6 +167,9 @@ func microDate(r *rand.Rand) dateIn {
 
 // anyDate: any precision (0..9 digits), any zone.
 func anyDate(r *rand.Rand) dateIn {
+	if canonicalProfile {
+		return microDate(r)
+	}
 	d := civil(r)
 	d[6] = frac(r, r.Intn(10))
 	switch r.Intn(4) {
@@ -414,4 +434,90 @@ func genLog(r *rand.Rand, wide bool, unsafe bool) logIn {
 		}
 	}
 	return l
+}
+
+// ---- payloads for the round-trip workload ------------------------------------------
+
+// consistentVolumes makes tx marshalable: Transaction.MarshalJSON derives
+// preCommitVolumes = postCommitVolumes − postings and dereferences every
+// (account, asset) of the postings, so a non-empty volume map must cover them and the
+// amounts must not be nil.
+func consistentVolumes(r *rand.Rand, t *txIn) {
+	fix := func(v *[]acctVolIn) *[]acctVolIn {
+		if v == nil || len(*v) == 0 || t.Postings == nil {
+			return v
+		}
+		m := map[string]map[string][2]string{}
+		for _, a := range *v {
+			as := map[string][2]string{}
+			for _, x := range a.Assets {
+				as[x.Asset] = [2]string{x.Input, x.Output}
+			}
+			m[a.Account] = as
+		}
+		for i := range *t.Postings {
+			p := &(*t.Postings)[i]
+			if p.Amount == nil {
+				s := gen.BigAmount(r).String()
+				p.Amount = &s
+			}
+			for _, acc := range []string{p.Source, p.Destination} {
+				if m[acc] == nil {
+					m[acc] = map[string][2]string{}
+				}
+				if _, ok := m[acc][p.Asset]; !ok {
+					m[acc][p.Asset] = [2]string{gen.BigAmount(r).String(), gen.BigAmount(r).String()}
+				}
+			}
+		}
+		out := make([]acctVolIn, 0, len(m))
+		for a, as := range m {
+			e := acctVolIn{Account: a, Assets: []assetVolIn{}}
+			for k, x := range as {
+				e.Assets = append(e.Assets, assetVolIn{Asset: k, Input: x[0], Output: x[1]})
+			}
+			sort.Slice(e.Assets, func(i, j int) bool { return e.Assets[i].Asset < e.Assets[j].Asset })
+			out = append(out, e)
+		}
+		sort.Slice(out, func(i, j int) bool { return out[i].Account < out[j].Account })
+		return &out
+	}
+	t.PostCommitVolumes = fix(t.PostCommitVolumes)
+	t.PostCommitEffectiveVolumes = fix(t.PostCommitEffectiveVolumes)
+}
+
+// genPayloadRT draws a payload for the encode/decode workload: 60 % canonical
+// (what the decoder can produce), 40 % free; sometimes a target id of the wrong
+// dynamic type or an unknown target type.
+func genPayloadRT(r *rand.Rand, wide bool) payloadIn {
+	canonicalProfile = r.Intn(5) < 3
+	defer func() { canonicalProfile = false }()
+	p := genPayload(r, wide)
+	for _, t := range []*txIn{p.Tx, p.Reverted, p.Revert} {
+		if t != nil {
+			consistentVolumes(r, t)
+			if canonicalProfile {
+				// empty non-nil maps are not canonical (omitempty)
+				if t.PostCommitVolumes != nil && len(*t.PostCommitVolumes) == 0 {
+					t.PostCommitVolumes = nil
+				}
+				if t.PostCommitEffectiveVolumes != nil && len(*t.PostCommitEffectiveVolumes) == 0 {
+					t.PostCommitEffectiveVolumes = nil
+				}
+			}
+		}
+	}
+	if !canonicalProfile && (p.Kind == "savedMetadata" || p.Kind == "deletedMetadata") {
+		switch r.Intn(8) {
+		case 0: // wrong dynamic type
+			if p.TargetAccount != nil {
+				p.TargetType = hx("TRANSACTION")
+			} else {
+				p.TargetType = hx("ACCOUNT")
+			}
+		case 1:
+			p.TargetType = hx(gen.Pick(r, []string{"", "LEDGER", "accounts", "tx"}))
+		}
+	}
+	return p
 }
